@@ -1618,15 +1618,22 @@ class TaskScenario(ScenarioData):
         # Fall back to allocate (which may contain IDs or resource objects)
         allocate = self.property.get("allocate", self.scenarioIdx) or []
         for res in allocate:
-            if isinstance(res, str):
-                # Look up resource by ID
-                for resource in self.project.resources:
-                    if resource.id == res:
-                        resources.append(resource)
-                        break
+            if isinstance(res, dict):
+                # Allocation with options: the primary resources and their alternatives are all
+                # candidates; whichever of them was booked has the usage records
+                candidates = list(res.get("resources", [])) + list(res.get("options", {}).get("alternative", []))
             else:
-                # Already a resource object
-                resources.append(res)
+                candidates = [res]
+            for candidate in candidates:
+                if isinstance(candidate, str):
+                    # Look up resource by ID
+                    for resource in self.project.resources:
+                        if resource.id == candidate:
+                            resources.append(resource)
+                            break
+                else:
+                    # Already a resource object
+                    resources.append(candidate)
 
         return resources
 
